@@ -170,6 +170,7 @@ func scenMicroRing(s *Sim) {
 	var lwg, swg sync.WaitGroup
 	nsig := int(p.Knob("signallers", 3))
 	persig := int(p.Knob("per_signaller", 8))
+	hardPct := p.Knob("hard_pct", 0)
 	var lworker func()
 	lworker = func() {
 		defer lwg.Done()
@@ -180,6 +181,18 @@ func scenMicroRing(s *Sim) {
 			got := pending.Swap(0)
 			done.Add(got)
 			atomic.AddInt32(&lworkers, -1)
+			if int64(s.Pick(100)) < hardPct {
+				// hard finish with the documented compensation (as loopFetch
+				// does on noConsumerSession): the bump of a racing signaller
+				// is discarded, so re-check for work and re-trigger
+				s.Probe("latch_hard_finish")
+				l.HardFinish()
+				if pending.Load() == 0 || !l.MaybeBegin() {
+					return
+				}
+				s.Probe("latch_hard_finish_retrigger")
+				continue
+			}
 			if !l.MaybeFinish(false) {
 				return
 			}
